@@ -148,6 +148,10 @@ def name_pool(rng, style):
         return lambda kind, i: {"in": f"IN{i}", "w": f"N_{i}", "inst": f"U{i}", "bb": f"X{i}"}[kind]
     if style == "under":
         return lambda kind, i: {"in": f"_a{i}", "w": f"w_{i}_", "inst": f"_g{i}", "bb": f"bb_{i}"}[kind]
+    if style == "ambig":
+        # names whose '_'-joins coincide: a + b_c == a_b + c
+        pool_in = ["a", "b_c", "a_b", "c", "b", "c_d", "b_c_d", "d", "a_b_c"]
+        return lambda kind, i: {"in": pool_in[i % len(pool_in)] + ("" if i < len(pool_in) else str(i)), "w": ["x", "x_y", "y", "y_z", "z", "x_y_z"][i % 6] + ("" if i < 6 else str(i)), "inst": f"g{i}", "bb": f"u{i}"}[kind]
     if style == "dollar":
         return lambda kind, i: {"in": f"i${i}", "w": f"n{i}$", "inst": f"g{i}", "bb": f"u{i}"}[kind]
     raise ValueError(style)
@@ -156,7 +160,7 @@ def name_pool(rng, style):
 def gen_netlist(rng, mode="full", max_stmts=10, max_inputs=5, depth=4, lookalike=0.0, escaped=0.0, nbb=None, stats=None, neg=None):
     """mode: 'full' (C02) or 'fast' (the fast parser's documented subset, C14)."""
     fast = mode == "fast"
-    style = rng.choice(["plain", "plain", "caps", "under", "dollar"])
+    style = rng.choice(["plain", "plain", "caps", "under", "dollar", "ambig"])
     nm = name_pool(rng, style)
     ni = rng.randint(1, max_inputs)
     inputs = [nm("in", i) for i in range(ni)]
